@@ -8,6 +8,7 @@ import DateutilVerif.Proofs.RRuleGenRebuild
 import DateutilVerif.Proofs.RRuleGenDaysets
 import DateutilVerif.Proofs.RRuleGenCached
 import DateutilVerif.Proofs.RRuleGenUse
+import DateutilVerif.Proofs.RRuleGenInit
 import DateutilVerif.Properties.C01
 
 namespace C01
@@ -180,5 +181,47 @@ theorem gen_dayset_after_rebuild (r : Rule) (hf : r.freq ≠ 0) (calls : List (I
 -- a rule out of the constructor (HOURLY, start 09:30:15): the hour's time set
 example : (constructW 0 { freq := 4, dtstart := { y := 1997, m := 9, d := 2, hh := 9, mm := 30, ss := 15, us := 0 } }).toOption.map
     (fun r => RRuleGen.genTimeset r {} 11 0 0) = some (.ok [(11, 30, 15)]) := by decide +kernel
+
+/-! ### sections of `rrule.__init__` (one top-level statement of the constructor each, re-translated from source;
+the `_original_rule` bookkeeping inside them is not part of the translation — hand model `origArgs`) -/
+
+/-- `# bymonth`: `None` kept, otherwise `tuple(sorted(set(bymonth)))` — the `.map sortedSet` of `bymonthOf` -/
+theorem gen_init_bymonth_eq_model (x : Option (List Int)) : Gen.init_bymonth x = .ok (x.map sortedSet) :=
+  RRuleGen.init_bymonth_eq x
+/-- `# byyearday` — the `byyearday` field of `construct` -/
+theorem gen_init_byyearday_eq_model (a : Args) : Gen.init_byyearday a.byyearday = .ok (a.byyearday.map sortedSet) :=
+  RRuleGen.init_byyearday_eq _
+/-- `# byweekno` — the `byweekno` field of `construct` -/
+theorem gen_init_byweekno_eq_model (a : Args) : Gen.init_byweekno a.byweekno = .ok (a.byweekno.map sortedSet) :=
+  RRuleGen.init_byweekno_eq _
+/-- `# byeaster`: `tuple(sorted(byeaster))`, repetitions kept — the `byeaster` field of `construct` -/
+theorem gen_init_byeaster_eq_model (a : Args) : Gen.init_byeaster a.byeaster = .ok (a.byeaster.map (sortBy ltInt)) :=
+  RRuleGen.init_byeaster_eq _
+/-- `# bymonthday`: the split into positive and negative members, applied to the argument after the defaults block
+    (`monthdayArg`) — the fields `bymonthday` / `bynmonthday` of `construct` -/
+theorem gen_init_bymonthday_eq_model (a : Args) :
+    Gen.init_bymonthday (monthdayArg a) = .ok (bymonthdayOf a, bynmonthdayOf a) := by
+  rw [RRuleGen.init_bymonthday_eq]
+  unfold bymonthdayOf bynmonthdayOf
+  cases monthdayArg a <;> rfl
+/-- the BYSETPOS block: ValueError for a position 0 or outside −366..366 — `normBysetpos` -/
+theorem gen_init_bysetpos_eq_model (a : Args) : Gen.init_bysetpos a.bysetpos = normBysetpos a :=
+  RRuleGen.init_bysetpos_eq a
+/-- `# byhour`: default from dtstart below HOURLY, `__construct_byset` (translated) at HOURLY, sorted set otherwise — `normUnit … 4 … 24` -/
+theorem gen_init_byhour_eq_model (a : Args) :
+    Gen.init_byhour a.freq a.dtstart a.interval a.byhour = normUnit a.freq 4 a.interval a.dtstart.hh a.byhour 24 :=
+  RRuleGen.init_byhour_eq _ _ _ _
+/-- `# byminute` — `normUnit … 5 … 60` -/
+theorem gen_init_byminute_eq_model (a : Args) :
+    Gen.init_byminute a.freq a.dtstart a.interval a.byminute = normUnit a.freq 5 a.interval a.dtstart.mm a.byminute 60 :=
+  RRuleGen.init_byminute_eq _ _ _ _
+/-- `# bysecond` (after the repair: one read of the argument) — `normUnit … 6 … 60` -/
+theorem gen_init_bysecond_eq_model (a : Args) :
+    Gen.init_bysecond a.freq a.dtstart a.interval a.bysecond = normUnit a.freq 6 a.interval a.dtstart.ss a.bysecond 60 :=
+  RRuleGen.init_bysecond_eq _ _ _ _
+
+example : Gen.init_bymonthday (some [3, -1, 3, 15, -2]) = .ok ([3, 15], [-2, -1]) := by decide
+example : Gen.init_bysetpos (some [1, 367]) = .error .ValueError := by decide
+example : Gen.init_byhour 4 { y := 1997, m := 9, d := 2, hh := 17, mm := 0, ss := 0, us := 0 } 4 (some [2, 21, 1]) = .ok (some [1, 21]) := by decide
 
 end C01
